@@ -877,6 +877,7 @@ func runExtra(rep *lib.Report, tier string, foreignIDs []string) {
 		runSingles(x, w, connSpellingCases(tier))
 		runSingles(x, w, framingSpellingCases(w.id))
 		runSingles(x, w, envCases())
+		famResStatus(x, w, tier)
 	}
 	var total int64
 	for _, n := range x.cases {
